@@ -3,6 +3,7 @@ module connectrpc.com/vanguard/verifharness
 go 1.25.0
 
 require (
+	connectrpc.com/connect v1.19.1
 	connectrpc.com/vanguard v0.0.0
 	google.golang.org/genproto/googleapis/api v0.0.0-20260223185530-2f722ef697dc
 	google.golang.org/genproto/googleapis/rpc v0.0.0-20260223185530-2f722ef697dc
@@ -11,7 +12,6 @@ require (
 )
 
 require (
-	connectrpc.com/connect v1.19.1 // indirect
 	golang.org/x/net v0.48.0 // indirect
 	golang.org/x/sys v0.39.0 // indirect
 	golang.org/x/text v0.32.0 // indirect
